@@ -6,7 +6,7 @@
 (* filtering); Literals_MC checks derivation = recogniser exhaustively.      *)
 (* One TLC state per literal; the invariant Emit prints the case as JSON:    *)
 (*   [lit |-> atoms, kind |-> production, ctx |-> contexts where WF holds,   *)
-(*    grp |-> "boundary" | "derived"]                                         *)
+(*    grp |-> "core" | "derived"]                                             *)
 EXTENDS Literals, Json
 
 CONSTANTS Sigma,      \* alphabet of the number literals
@@ -223,8 +223,11 @@ GenRaws ==
 -----------------------------------------------------------------------------
 AllLits == GenNumbers \cup Boundary \cup GenRunes \cup GenStrings \cup GenRaws
 
+(* the spellings every run uses (the quick tier samples the others) *)
+CoreLits == Boundary \cup GenRunes \cup Wrap("\"", StringElems) \cup Wrap("`", RawElems)
+
 Case(s) == [lit |-> s, kind |-> Kind(s), ctx |-> {x \in Contexts : WF(s, x)},
-            grp |-> IF s \in Boundary THEN "boundary" ELSE "derived"]
+            grp |-> IF s \in CoreLits THEN "core" ELSE "derived"]
 
 (* the empty spelling is the start state; every literal is one step away, so that all the *)
 (* evaluation happens in TLC worker threads (run with a large -Xss: BigNat recursion is deep) *)
